@@ -61,7 +61,10 @@ WSink(kind, n, bytes) ==
   /\ wpend.op # "check"              \* check_io_error never touches the sink
   /\ ~parked                         \* the sink is left alone while a failure is parked
   /\ \/ /\ kind = "n" /\ n >= 1 /\ Len(bytes) = n
-        /\ \E p \in next..(Len(written) - n) :
+        /\ n <= Len(written) - next
+        \* in order and duplicate free: exactly the next bytes, unless bytes written between a failure and its report
+        \* were discarded (skipOk), in which case a later position may be chosen once
+        /\ \E p \in (IF skipOk THEN next..(Len(written) - n) ELSE {next}) :
              /\ (p # next => skipOk)
              /\ bytes = SubSeq(written, p + 1, p + n)
              /\ next' = p + n
